@@ -27,6 +27,10 @@ type poolGuard struct {
 
 var guard *poolGuard
 
+// guardDoublePut: the double-put check alone (no fingerprints, no poison, no
+// shared tables), for the race-detector build of C09.
+var guardDoublePut *Ctx
+
 func ifacePtr(x any) unsafe.Pointer { return (*[2]unsafe.Pointer)(unsafe.Pointer(&x))[1] }
 
 func bufBytes(b *buffer.Buffer) []byte {
@@ -87,6 +91,8 @@ func init() {
 	simsync.OnDoublePut = func(p *simsync.Pool, x any) {
 		if g := guard; g != nil {
 			g.c.Fail("pool: an object was put into its pool twice", "%T", x)
+		} else if dc := guardDoublePut; dc != nil {
+			dc.Fail("pool: an object was put into its pool twice", "%T", x)
 		}
 	}
 }
